@@ -1431,8 +1431,6 @@ class Wtp:
                         self.expand_stack.pop()
                         if is_positional_name(k):
                             k = int(k)
-                        else:
-                            k = re.sub(r"\s+", " ", k).strip()
                         v = argmap.get(k, None)
                         if v is not None:
                             parts.append(v.removesuffix("\n"))
@@ -1682,8 +1680,10 @@ class Wtp:
                                 k = int(k)
                             else:
                                 self.expand_stack.append("ARGNAME")
-                                k = expand_recurse(k, parent, True)
-                                k = re.sub(r"\s+", " ", k).strip()
+                                # the name is trimmed, nothing else (as
+                                # in TemplateNode.template_parameters and
+                                # in the arguments a Lua module sees)
+                                k = expand_recurse(k, parent, True).strip()
                                 self.expand_stack.pop()
                         else:
                             k = num
